@@ -695,6 +695,32 @@ func (c CanonInt) String() string {
 	return s
 }
 
+// convWidth: t is conv[<integer type>](x): the width and signedness of the target type.
+func convWidth(t Term) (int, bool, bool) {
+	if len(t.Args) != 1 || !strings.HasPrefix(t.Fn, "conv[") || !strings.HasSuffix(t.Fn, "]") {
+		return 0, false, false
+	}
+	switch t.Fn[len("conv[") : len(t.Fn)-1] {
+	case "int8":
+		return 8, true, true
+	case "uint8", "byte":
+		return 8, false, true
+	case "int16":
+		return 16, true, true
+	case "uint16":
+		return 16, false, true
+	case "int32", "rune":
+		return 32, true, true
+	case "uint32":
+		return 32, false, true
+	case "int":
+		return WordBits, true, true
+	case "uint", "uintptr":
+		return WordBits, false, true
+	}
+	return 0, false, false
+}
+
 // Canon computes the canonical form of v, ok=false if v is not of that shape.
 func Canon(v Val) (CanonInt, bool) {
 	switch x := v.(type) {
@@ -704,6 +730,19 @@ func Canon(v Val) (CanonInt, bool) {
 		}
 		return CanonInt{Root: x.Name}, true
 	case Term:
+		// a narrowing conversion kept as an operator (conv[uint8](t)): t modulo 2^width
+		if w, signed, isConv := convWidth(x); isConv {
+			if c, ok := Canon(x.Args[0]); ok && c.C == 0 {
+				if c.Width == 0 || w < c.Width {
+					c.Width = w
+					c.Ext = "zext"
+					if signed {
+						c.Ext = "sext"
+					}
+				}
+				return c, true
+			}
+		}
 		return CanonInt{Root: x.String()}, true
 	case Affine:
 		c, ok := Canon(x.X)
